@@ -241,7 +241,7 @@ func c14immutable(env *core.Env, wrapper bool) {
 	}
 	m := reg.NewModel(!wrapper)
 	m.StrictCodes = false
-	cfg := reg.GenConfig{Repos: pickSome(c, "repos", repoNames, 1, 2), Tags: pickSome(c, "tags", tagNames, 1, 3), MaxBlob: 50, Weights: reg.DefaultWeights(), Uploads: true, AltAlgo: false}
+	cfg := reg.GenConfig{Repos: pickSome(c, "repos", repoNames, 1, 2), Tags: pickSome(c, "tags", tagNames, 1, 3), MaxBlob: 50, Weights: reg.DefaultWeights(), Uploads: true, AltAlgo: false, Motifs: true}
 	w := &cfg.Weights
 	w[reg.PushManifest], w[reg.DeleteBlob], w[reg.DeleteManifest], w[reg.DeleteTag], w[reg.GetTag], w[reg.ResolveTag] = 16, 8, 8, 6, 8, 8
 	g := reg.NewGen(c, m, cfg)
